@@ -462,6 +462,141 @@ fn case_strategy() -> impl Strategy<Value = Case> {
     (0u8..2, proptest::bool::weighted(0.2), proptest::collection::vec(step(), 1..40)).prop_map(|(auth, dedicated, steps)| Case { auth, dedicated, steps })
 }
 
+
+// ---------------------------------------------------------------------------------------------------------------
+// unit "backend": the same clause with the connection status driven by the real example backend (loopback TCP)
+
+#[derive(Event, Serialize, Deserialize, Clone)]
+struct BEv(u32);
+#[derive(Event, Serialize, Deserialize, Clone)]
+struct BTrig(u32);
+/// (sequence number, sender) of every `FromClient` handled by this app's server-side logic
+#[derive(Resource, Default)]
+struct BSeen(Vec<(u32, Entity)>);
+
+#[derive(Clone, Debug, Serialize, Deserialize)]
+pub struct BackendCase {
+    /// lock-step frames after the connection is established
+    pub warm: u8,
+    /// emissions: (trigger instead of event, frame relative to the one in which the game drops the connection: 0 = the
+    /// frame before, 1 = the same frame, 2 = the frame after)
+    pub emits: Vec<(bool, u8)>,
+}
+
+fn backend_app() -> App {
+    use bevy_replicon_example_backend::RepliconExampleBackendPlugins;
+    let mut app = App::new();
+    app.add_plugins((
+        MinimalPlugins,
+        RepliconPlugins.set(RepliconSharedPlugin { auth_method: AuthMethod::None }).set(ServerPlugin { tick_policy: TickPolicy::EveryFrame, ..Default::default() }),
+        RepliconExampleBackendPlugins,
+    ))
+    .add_client_event::<BEv>(Channel::Ordered)
+    .add_client_trigger::<BTrig>(Channel::Ordered)
+    .init_resource::<BSeen>()
+    .add_observer(|t: Trigger<FromClient<BTrig>>, mut seen: ResMut<BSeen>| {
+        seen.0.push((t.event().event.0, t.event().client));
+    })
+    .add_systems(Update, |mut r: EventReader<FromClient<BEv>>, mut seen: ResMut<BSeen>| {
+        for e in r.read() {
+            seen.0.push((e.event.0, e.client));
+        }
+    });
+    app.finish();
+    app
+}
+
+pub fn run_backend(c: &BackendCase) -> Outcome {
+    use bevy_replicon_example_backend::{ExampleClient, ExampleServer};
+    let mut server = backend_app();
+    let mut client = backend_app();
+    let sock = match ExampleServer::new(0) {
+        Ok(s) => s,
+        Err(e) => return Outcome::failed(Fail::new("infra.socket", format!("cannot open server socket: {e}"))),
+    };
+    let port = sock.local_addr().unwrap().port();
+    server.insert_resource(sock);
+    match ExampleClient::new(port) {
+        Ok(s) => client.insert_resource(s),
+        Err(e) => return Outcome::failed(Fail::new("infra.socket", format!("cannot connect: {e}"))),
+    };
+    for _ in 0..2 + (c.warm % 3) as usize {
+        server.update();
+        client.update();
+    }
+    if !client.world().resource::<RepliconClient>().is_connected() {
+        return Outcome::failed(Fail::new("infra.socket", "client did not connect over loopback".to_string()));
+    }
+    let mut seq = 0u32;
+    let mut emitted: Vec<(u32, u8)> = Vec::new();
+    for frame in 0u8..3 {
+        if frame == 1 {
+            // the game drops the connection
+            client.world_mut().remove_resource::<ExampleClient>();
+        }
+        for &(trig, when) in &c.emits {
+            if when % 3 == frame {
+                seq += 1;
+                emitted.push((seq, frame));
+                if trig {
+                    client.world_mut().client_trigger(BTrig(seq));
+                } else {
+                    client.world_mut().send_event(BEv(seq));
+                }
+            }
+        }
+        client.update();
+        server.update();
+        if frame == 0 {
+            // loopback delivery is fast but not instantaneous: the server reads what was sent while connected before the
+            // game drops the connection (messages read in the same pass as the close are discarded with the client)
+            for _ in 0..500 {
+                if emitted.iter().all(|(s, _)| server.world().resource::<BSeen>().0.iter().any(|e| e.0 == *s)) {
+                    break;
+                }
+                std::thread::sleep(std::time::Duration::from_millis(2));
+                server.update();
+            }
+        }
+    }
+    // let everything settle: what was written to the socket before it closed still arrives
+    let all_handled = |server: &App, client: &App| {
+        emitted.iter().all(|(s, _)| server.world().resource::<BSeen>().0.iter().any(|e| e.0 == *s) || client.world().resource::<BSeen>().0.iter().any(|e| e.0 == *s))
+    };
+    for round in 0..200 {
+        client.update();
+        server.update();
+        if round >= 3 && all_handled(&server, &client) {
+            break;
+        }
+        std::thread::sleep(std::time::Duration::from_millis(2));
+    }
+    for (s, frame) in &emitted {
+        let remote: Vec<Entity> = server.world().resource::<BSeen>().0.iter().filter(|e| e.0 == *s).map(|e| e.1).collect();
+        let local: Vec<Entity> = client.world().resource::<BSeen>().0.iter().filter(|e| e.0 == *s).map(|e| e.1).collect();
+        if remote.len() + local.len() != 1 {
+            return Outcome::failed(Fail::new(
+                "C13.backend_paths",
+                format!("event {s} emitted in frame {frame} (the connection is dropped in frame 1): handled {} times by the remote server and {} times locally, expected exactly one path", remote.len(), local.len()),
+            ));
+        }
+        if *frame >= 1 && (local.len() != 1 || local[0] != SERVER) {
+            return Outcome::failed(Fail::new("C13.backend_local", format!("event {s} emitted in frame {frame} with the connection gone: local handling {local:?}, expected once with the local-server sender")));
+        }
+        if *frame == 0 && (remote.len() != 1 || remote[0] == SERVER) {
+            return Outcome::failed(Fail::new("C13.backend_remote", format!("event {s} emitted while connected: remote handling {remote:?}, expected once with the client's identity")));
+        }
+    }
+    let mut out = Outcome::ok();
+    out.nontrivial = emitted.iter().any(|e| e.1 == 1);
+    out.classes.push("example_backend");
+    out
+}
+
+fn backend_strategy() -> impl Strategy<Value = BackendCase> {
+    (0u8..3, proptest::collection::vec((any::<bool>(), 0u8..3), 1..5)).prop_map(|(warm, emits)| BackendCase { warm, emits })
+}
+
 pub struct C13;
 
 impl Prop for C13 {
@@ -469,12 +604,21 @@ impl Prop for C13 {
         "C13"
     }
     fn units(&self, tier: Tier) -> Vec<Unit> {
-        vec![Unit::new("walks", if tier == Tier::Quick { 200_000 } else { 3_000_000 })]
+        vec![Unit::new("walks", if tier == Tier::Quick { 200_000 } else { 3_000_000 }), Unit::new("backend", if tier == Tier::Quick { 1_500 } else { 20_000 })]
     }
     fn run_unit(&self, unit: &Unit, cases: u32, seed: u64, stats: &mut Stats) -> Option<Failure> {
+        if unit.name == "backend" {
+            return run_proptest(&unit.name, backend_strategy(), cases, seed, 200, stats, |c| guarded("C13", || run_backend(c)));
+        }
         run_proptest(&unit.name, case_strategy(), cases, seed, 4000, stats, |c| guarded("C13", || run(c)))
     }
-    fn replay(&self, _unit: &str, case: &Value) -> Outcome {
+    fn replay(&self, unit: &str, case: &Value) -> Outcome {
+        if unit == "backend" {
+            return match serde_json::from_value::<BackendCase>(case.clone()) {
+                Ok(c) => run_backend(&c),
+                Err(e) => Outcome::failed(Fail::new("infra.replay", e.to_string())),
+            };
+        }
         match serde_json::from_value::<Case>(case.clone()) {
             Ok(c) => run(&c),
             Err(e) => Outcome::failed(Fail::new("infra.replay", e.to_string())),
@@ -486,7 +630,10 @@ impl Prop for C13 {
          with/without target), frame}; emissions happen in an Update system that records the status it saw; every payload carries an 8-byte tag found by raw search in \
          drain_sent. oracle: emitted while disconnected => exactly one local FromClient with sender SERVER and no send; while connected => exactly one send and no local \
          handling; while connecting => at most one handling; server-direction: local observation exactly once iff the mode includes the server; dedicated: never twice; \
-         nothing leaves while not connected / not running. non-trivial = a status transition within two frames of an emission, or several emissions in one frame"
+         nothing leaves while not connected / not running. unit backend: a client app and a server app with the real example backend over loopback TCP; the game \
+         removes the socket resource in one frame and emits 1..4 client events / triggers in the frame before, the same frame or the frame after: exactly one path each \
+         (remote with the client's identity before, local with the local-server identity from the drop frame on). non-trivial = a status transition within two frames \
+         of an emission, or several emissions in one frame (walks) / an emission in the drop frame (backend)"
             .into()
     }
     fn assumptions(&self) -> Vec<String> {
